@@ -4,7 +4,7 @@ import sys as _sys
 # The engine compiles props/C07.v itself for Print Assumptions (and fails the run if that
 # does not compile), so the quick tier builds only what that compile needs; the thorough
 # tier also builds props/C07.vo for coqchk.
-COQ_TARGETS = ["proofs/WireProofs.vo", "proofs/WireLayoutProofs.vo", "judge/J07.vo", "model/Pack.vo"] + (
+COQ_TARGETS = ["proofs/WireProofs.vo", "proofs/WireLayoutProofs.vo", "proofs/PoolProofs.vo", "judge/J07.vo", "model/Pack.vo"] + (
     ["props/C07.vo"] if "thorough" in _sys.argv else [])
 JUDGE = ("judge.J07", "J07.judge")
 JUDGE_SCOPE = "N_scope"
@@ -17,15 +17,26 @@ RULE = ("(1) pure codecs through verif wrappers: Message.WriteTo, decodeMessage 
         "(2) HTTP /pub, text /mpub, binary /mpub (Content-Length and chunked) against live daemons with default and tiny limits, observed through /stats and by consuming the channel. "
         "(3) live paths on fresh daemons: TCP PUB/MPUB/DPUB + HTTP pub(+defer)/text mpub/binary mpub, 1-3 channels, mem-queue-size 0/1/2/10000, 1-3 deliveries per message (REQ, immediate or deferred; in some cases the first requeue is the in-flight timeout, msg_timeout 1 s), "
         "restart on the same data path, small max-bytes-per-file (file rolls), producers and consumers over a seeded walk of {plain,TLS} x {none,snappy,deflate1..9} x output_buffer_size{-1,64,16384,65536} x output_buffer_timeout{-1,default,25,1000}, "
-        "other traffic interleaved on consumer connections; large bodies (4KiB+-1 .. 1MiB) compared by the harness (digest cases). Every case is non-trivial; distinct = distinct terms.")
+        "other traffic interleaved on consumer connections; large bodies (4KiB+-1 .. 1MiB) compared by the harness (digest cases). "
+        "(4) concurrent deliveries with a delivery held part-way (liveconc): 1-2 slow consumers behind a small TCP window (SO_RCVBUF 4/16 KiB, MSS 1400 on the harness's socket) read the header of a frame of 200 KB..1 MiB "
+        "(= max-msg-size, +-1 around 256/512 KiB) and stop reading -- the daemon's write is blocked inside Send -- while 2-4 fast consumers on a shared channel take a whole batch concurrently and the next batch is published "
+        "(mem-queue-size 0/1/10000), 2-3 rounds per case, consumers over the same transport walk, PUBs interleaved on the consumer connections (responses contending for the write lock of the held delivery), "
+        "GOMAXPROCS 1 (quiet) / 2 / all in turn; "
+        "(5) a queue write held part-way (livegate): the Put of writeMessageToBackend into a topic's or a channel's disk queue parks in the verif gate after serialisation while 1-4 messages travel all the way through another topic "
+        "(two queue writes, read back, delivery, FIN), 2-4 rounds, sizes 8 B..200 KB, same-size and shorter other messages, mem-queue-size 0/1, GOMAXPROCS 1/2/all. "
+        "Every case is non-trivial; distinct = distinct terms.")
 TRUSTED = [
     "Section variables tx/rx standing for the transport (crypto/tls, golang/snappy, compress/flate at any level, bufio of any size, flush policy) with the single assumed law "
     "`forall writes, concat (rx (tx writes)) = concat writes` (C07_transport_stream, C07_end_to_end); the law is exercised, not proved, by the live cases",
-    "modelled, not verified: bytes.Buffer / sync.Pool reuse (bufferPoolGet/Put: the model has no buffer identity), io.ReadFull / bufio.Reader.ReadBytes / io.LimitReader semantics, net/http request body delivery, "
+    "modelled, not verified: sync.Pool (model/Pool.v: Get hands out ANY buffer that is in the pool, or a new one, never one that is checked out) and bytes.Buffer (Reset keeps the array, WriteTo overwrites its prefix in place); "
+    "the sinks of the pooled bytes do not keep reading them after they return (io.Writer contract for the bufio/flate/snappy/tls writer stack; go-diskqueue Put returns after its ioLoop has taken the record) -- exercised by the liveconc / livegate cases; "
+    "io.ReadFull / bufio.Reader.ReadBytes / io.LimitReader semantics, net/http request body delivery, "
     "go-diskqueue (abstract FIFO of records), time.Now (the timestamp is whatever NewMessage read)",
     "the client side of the frame format is the reader written in model/Wire.v after go-nsq ReadResponse/UnpackResponse; the harness's own raw TCP client (harness/cmd/wiredrive/client.go) implements the same reading",
-    "hooks /repo/nsqd/verif_c07.go (build tag verif): wrappers around WriteTo, decodeMessage, writeMessageToBackend, SendFramedResponse, readMPUB",
+    "hooks /repo/nsqd/verif_c07.go (build tag verif): wrappers around WriteTo, decodeMessage, writeMessageToBackend, SendFramedResponse, readMPUB; "
+    "/repo/nsqd/verif_c07_gate.go: a forwarding BackendQueue wrapper whose next Put can be parked on entry (livegate cases)",
     "generated table coq/gen/WireLayout.v (tools/gotables/wirelayout.go): field/offset/width/endianness/write order read from the syntax of WriteTo, decodeMessage, SendFramedResponse, doMPUB",
+    "generated table coq/gen/PoolUse.v (tools/gotables/pooluse.go): every function of package nsqd that calls bufferPoolGet, and whether its bufferPoolPut is deferred / placed after the last statement that mentions the buffer or an alias of its memory (syntactic alias tracking through assignments); what bufferPoolPut / bufferPoolGet call",
 ]
 ASSUMPTIONS = [
     "transport round-trip law (TLS/snappy/deflate/bufio): what the peer reads is the concatenation of what was written",
@@ -36,9 +47,11 @@ LEVEL_TEXT = ("Machine-checked proof (Coq 8.16.1) over an executable model of Me
               "decodable record is the encoding of what it decodes to; shorter-than-26-byte inputs are refused and nothing ever slices out of range; EVERY sequence of frames, whatever the data bytes, read in ANY chunking gives back "
               "exactly that sequence; readMPUB returns exactly the bodies of every batch within the limits and, for EVERY input, leaves the queue untouched or extended by exactly what the input spells out (all-or-nothing); text /mpub publishes "
               "exactly the non-empty newline-separated blocks (unterminated last block included) or nothing; EVERY sequence of memory/disk/restart/requeue/copy/delivery hops preserves id, body and timestamp and counts attempts; "
-              "one delivery end to end over an arbitrary transport satisfying the stated round-trip law; ids are 16 hex characters, injective in the guid. Layout constants and the field/offset table are regenerated from the Go source on every run. "
+              "one delivery end to end over an arbitrary transport satisfying the stated round-trip law; ids are 16 hex characters, injective in the guid; "
+              "pooled serialisation buffers (SendMessage, writeMessageToBackend): for EVERY number of concurrent calls, EVERY interleaving of their steps, EVERY choice of the pool and EVERY cut of the writes, a call's sink receives exactly that call's record "
+              "under the release discipline read from the source (and not under release-before-write). Layout constants, the field/offset table and the pool-use table are regenerated from the Go source on every run. "
               "Tied to the code by differential correspondence on the real functions and on live daemons over every negotiated transport combination.")
-LEVEL_NOTE = ("Partial: compression/TLS libraries and bufio are assumed correct (one round-trip law, exercised live on every run); buffer-pool reuse is below the model's grain (covered only by interleaved live traffic); "
+LEVEL_NOTE = ("Partial: compression/TLS libraries and bufio are assumed correct (one round-trip law, exercised live on every run); sync.Pool / bytes.Buffer semantics and the sinks' no-retention are assumed (exercised by deliveries and queue writes held part-way while other traffic runs); "
               "the history-level body-path statement over the nsqd state machine is Core's. Trusted: Coq kernel + vm_compute; gotables; the verif hooks; the harness's raw TCP client; correspondence is sampled, the theorems are not.")
 TECHNIQUE = "Coq proofs (codec inverses, self-delimiting stream, all-or-nothing parsing, hop-sequence invariant) + generated layout table + differential correspondence on real code and live daemons"
 DESIGN_REF = "DESIGN.md §5 C07"
@@ -52,8 +65,8 @@ SEARCH_SCALE = 1 if "thorough" in _sys.argv else 8
 def drivers():
     def args(tier, seed, scale):
         if tier == "quick":
-            n, nh, nl, nb, big, nt = 220 * scale, 70 * scale, 26 * scale, 3, 8, 2
+            n, nh, nl, nb, big, nt, nc, ng = 220 * scale, 70 * scale, 26 * scale, 3, 8, 2, 6 * scale, 6 * scale
         else:
-            n, nh, nl, nb, big, nt = 3000 * scale, 800 * scale, 400 * scale, 12, 40, 20
-        return ["-n", str(n), "-http", str(nh), "-live", str(nl), "-livebig", str(nb), "-livetmo", str(nt), "-big", str(big), "-seed", str(seed)]
+            n, nh, nl, nb, big, nt, nc, ng = 3000 * scale, 800 * scale, 400 * scale, 12, 40, 20, 90 * scale, 90 * scale
+        return ["-n", str(n), "-http", str(nh), "-live", str(nl), "-livebig", str(nb), "-livetmo", str(nt), "-liveconc", str(nc), "-livegate", str(ng), "-big", str(big), "-seed", str(seed)]
     return [{"driver": "wiredrive", "args": args, "replay_args": lambda tier: []}]
